@@ -290,7 +290,7 @@ def make_check(tier):
     chk.add("delete/elf/versions-single", h_delete, params=dict(fmt="elf", mode="single", focus="versions"), timeout=20000)
     chk.add("delete/elf/versions-two", h_delete, params=dict(fmt="elf", mode="two", focus="versions"), timeout=20000)
     chk.add("delete/pe/single", h_delete, params=dict(fmt="pe", mode="single"), timeout=6000)
-    if tier == "thorough":
+    if True:  # two deleted symbols that sit next to each other in the PE lists
         chk.add("delete/pe/two", h_delete, params=dict(fmt="pe", mode="two"), timeout=20000)
     chk.bounds = {
         "symbols": "target S (internal or proxy-backed), optional second deleted symbol S2, bystander T present in every table",
